@@ -60,6 +60,14 @@ pub struct RecState {
     pub injected: Vec<(Kind, u32, String)>,
     /// how many calls of each kind were seen while armed (tells the generator what is reachable)
     pub seen: [u32; 8],
+    /// injected lock contention: this many further attempts to take the write lock (WAL write
+    /// lock, or RESERVED and above on the database file) are answered SQLITE_BUSY, as if another
+    /// connection held it
+    pub busy_left: u32,
+    pub busy_hits: u32,
+    /// SQLite's busy handler sleeps through the VFS: do not really sleep (its time-out accounting
+    /// goes by the number of attempts, so a 5 s time-out elapses at once)
+    pub virtual_sleep: bool,
 }
 
 pub struct Recorder {
@@ -83,6 +91,19 @@ impl Recorder {
         s.counters = [0; 8];
         s.seen = [0; 8];
         s.injected.clear();
+    }
+    pub fn set_busy(&self, attempts: u32) {
+        let mut s = self.state.lock().unwrap();
+        s.busy_left = attempts;
+        s.busy_hits = 0;
+        s.virtual_sleep = attempts > 0;
+    }
+    /// ends the injected contention; returns how many lock attempts were refused
+    pub fn clear_busy(&self) -> u32 {
+        let mut s = self.state.lock().unwrap();
+        s.busy_left = 0;
+        s.virtual_sleep = false;
+        s.busy_hits
     }
     pub fn disarm(&self) -> (Vec<(Kind, u32, String)>, [u32; 8]) {
         let mut s = self.state.lock().unwrap();
@@ -248,10 +269,24 @@ unsafe extern "C" fn x_file_size(f: *mut ffi::sqlite3_file, p: *mut ffi::sqlite3
     real_method!(f, xFileSize)(real(f), p)
 }
 
+fn busy(rec: &Recorder) -> bool {
+    let mut s = rec.state.lock().unwrap();
+    if s.busy_left > 0 {
+        s.busy_left -= 1;
+        s.busy_hits += 1;
+        true
+    } else {
+        false
+    }
+}
+
 unsafe extern "C" fn x_lock(f: *mut ffi::sqlite3_file, l: c_int) -> c_int {
     if let (Some(rec), Some(n)) = (current(), name_of(f)) {
         if fire(&rec, Kind::Lock, &n).is_some() {
             return ffi::SQLITE_IOERR_LOCK;
+        }
+        if l >= ffi::SQLITE_LOCK_RESERVED && busy(&rec) {
+            return ffi::SQLITE_BUSY;
         }
     }
     real_method!(f, xLock)(real(f), l)
@@ -287,6 +322,14 @@ unsafe extern "C" fn x_shm_map(f: *mut ffi::sqlite3_file, pg: c_int, sz: c_int, 
 }
 
 unsafe extern "C" fn x_shm_lock(f: *mut ffi::sqlite3_file, off: c_int, n: c_int, flags: c_int) -> c_int {
+    // offset 0 is the WAL write lock
+    if off == 0 && (flags & ffi::SQLITE_SHM_LOCK) != 0 && (flags & ffi::SQLITE_SHM_EXCLUSIVE) != 0 {
+        if let (Some(rec), Some(_)) = (current(), name_of(f)) {
+            if busy(&rec) {
+                return ffi::SQLITE_BUSY;
+            }
+        }
+    }
     real_method!(f, xShmLock)(real(f), off, n, flags)
 }
 
@@ -404,6 +447,11 @@ unsafe extern "C" fn v_randomness(_v: *mut ffi::sqlite3_vfs, n: c_int, out: *mut
     (*g.real).xRandomness.unwrap()(g.real, n, out)
 }
 unsafe extern "C" fn v_sleep(_v: *mut ffi::sqlite3_vfs, us: c_int) -> c_int {
+    if let Some(rec) = current() {
+        if rec.state.lock().unwrap().virtual_sleep {
+            return us;
+        }
+    }
     let g = global();
     (*g.real).xSleep.unwrap()(g.real, us)
 }
